@@ -67,7 +67,7 @@ end
 def sortPairs (es : List (String × String)) : List (String × String) :=
   (es.toArray.qsort (fun a b => a.1 < b.1)).toList
 
-def keyHex (k : String) : String := (hex k.toUTF8.toList).drop 1 |>.toString
+def keyHex (k : String) : String := (hex (stringToBytes k)).drop 1 |>.toString
 
 mutual
 def canon : Json → String
